@@ -16,6 +16,7 @@ EXPLANATION = ("reader/writer agreement and range rules: for every record type t
                "label is written; names are bounded by the decoder (255 octets) so 16-bit RDLENGTH casts cannot wrap; the pointer "
                "follower carries a depth fuel bounded by a small constant; the encoder compares labels exactly")
 ASSUMPTIONS = ["not decided: decode(encode(m)) = m over all messages"]
+EXPLANATION += "; also: exact label comparison in the encoder; every OPT record leaves the additional section; type/class/TTL are stored as read by big-endian readers (evaluated); the OPT record is emitted whenever EDNS data is present; C04's truncation-loop rules are evaluated here too"
 EXTRA_CONFIGS = ["dns"]
 
 # RFC 1035 3.3 / RFC 1183 / RFC 3403 / RFC 6891 RDATA shapes, by RData variant
